@@ -4,6 +4,11 @@ import GontainerModel.Props.C20
 #print axioms GM.C20.cached_then_hit
 #print axioms GM.C20.cache_monotone
 #print axioms GM.C20.helpers_stateless
+#print axioms GM.C20.lib_get_protocol
+#print axioms GM.C20.lib_get_caches
+#print axioms GM.C20.lib_get_stages
+#print axioms GM.C20.lib_getParam_protocol
+#print axioms GM.C20.lib_version_pinned
 #print axioms GM.C20.multi_reachable_inv
 #print axioms GM.C20.at_most_once_each
 #print axioms GM.C20.instances_never_shared
